@@ -13,7 +13,8 @@ Observation (one line): `d=<answer>|<reason> k=<hit|reval|miss> b=<n>`
   d  the decision HttpStateData::haveParsedReplyHeaders logged for request 1 (`decided: ...` at debug level 11,3), `none` if absent
   k  what reached the origin for request 2: nothing (hit), a conditional request (reval), an unconditional request (miss)
   b  the X-Seq of the response the client received for request 2 (1 = the stored first response was served)
-Each worker thread owns one squid (sequential scenarios, so the log lines of a scenario are the new lines of its own cache.log).
+Each worker thread owns one squid (sequential scenarios, so the log lines of a scenario are the new lines of its own cache.log);
+all squids are started up front from the main thread: six with the default configuration, one each for the variants n and o.
 """
 import os, re, threading, time, queue
 from concurrent.futures import ThreadPoolExecutor
@@ -28,6 +29,7 @@ ANSWERS = {
 }
 
 AUTH_VALUE = "Basic dmVyaWY6c2VjcmV0"   # verif:secret
+START_LOCK = threading.Lock()
 PROBLEM = re.compile(r"(assertion failed[^\n]*|FATAL[^\n]*|ERROR: AddressSanitizer[^\n]*|runtime error:[^\n]*|BUG[^\n]*)")
 
 
@@ -51,27 +53,33 @@ def conf_for(stage, cfg):
 
 
 class Worker:
-    def __init__(self, stage, origin, wid):
-        self.stage, self.origin, self.wid = stage, origin, wid
-        self.squids = {}
+    """one squid with one configuration; scenarios run on it one after the other"""
+
+    def __init__(self, stage, origin, wid, cfg):
+        self.stage, self.origin, self.wid, self.cfg = stage, origin, wid, cfg
+        self.sq = None
         self.n = 0
 
+    def start(self):
+        """called from the main thread only (fork + preexec_fn from worker threads can deadlock the child)"""
+        err = None
+        for attempt in range(4):      # the free port found by the rig can be taken by another process before squid binds it
+            try:
+                self.sq = rig.Squid(self.stage, conf=conf_for(self.stage, self.cfg)).start(wait=30.0)
+                self.sq.log_pos = 0
+                return self
+            except RuntimeError as e:
+                err = e
+                time.sleep(0.3 * (attempt + 1))
+        raise err
+
     def squid(self, cfg):
-        s = self.squids.get(cfg)
-        if s is None or not s.alive():
-            err = None
-            for attempt in range(4):      # the free port found by the rig can be taken by another process before squid binds it
-                try:
-                    s = rig.Squid(self.stage, conf=conf_for(self.stage, cfg)).start()
-                    break
-                except RuntimeError as e:
-                    err = e
-                    time.sleep(0.3 * (attempt + 1))
-            else:
-                raise err
-            s.log_pos = 0
-            self.squids[cfg] = s
-        return s
+        if cfg != self.cfg:
+            raise RuntimeError("scenario for configuration %s routed to a %s squid" % (cfg, self.cfg))
+        if self.sq is None or not self.sq.alive():
+            with START_LOCK:
+                self.start()
+        return self.sq
 
     def new_log(self, s):
         path = os.path.join(s.dir, "cache.log")
@@ -221,26 +229,32 @@ class Worker:
         return "d=%s k=%s b=%s" % (d, k, b)
 
     def close(self):
-        for s in self.squids.values():
-            s.stop()
+        if self.sq is not None:
+            self.sq.stop()
 
 
 class Harness:
-    WORKERS = 6
+    LAYOUT = ["d"] * 6 + ["n", "o"]      # six squids with the default configuration, one each for the two variants
 
     def __init__(self, stage):
         self.stage = stage
         self.origin = rig.Origin()
-        self.workers = [Worker(stage, self.origin, i) for i in range(self.WORKERS)]
+        self.workers = [Worker(stage, self.origin, i, cfg).start() for i, cfg in enumerate(self.LAYOUT)]
         self.crashes = 0
 
     def run(self, lines):
         out = [None] * len(lines)
-        q = queue.Queue()
+        queues = {"d": queue.Queue(), "n": queue.Queue(), "o": queue.Queue()}
         for i, l in enumerate(lines):
-            q.put((i, l))
+            f = l.split(" ")
+            cfg = f[1] if f and f[0] == "R" and len(f) > 1 else (f[0] if f else "")
+            if cfg in queues:
+                queues[cfg].put((i, l))
+            else:
+                out[i] = "bad-op"
 
         def loop(w):
+            q = queues[w.cfg]
             while True:
                 try:
                     i, l = q.get_nowait()
@@ -258,9 +272,8 @@ class Harness:
                     self.crashes += 1
                 out[i] = o
 
-        nw = min(self.WORKERS, max(1, len(lines)))
-        with ThreadPoolExecutor(max_workers=nw) as ex:
-            list(ex.map(loop, self.workers[:nw]))
+        with ThreadPoolExecutor(max_workers=len(self.workers)) as ex:
+            list(ex.map(loop, self.workers))
         return out
 
     def close(self):
